@@ -285,6 +285,14 @@ class Layout:
     def add(self, st, a, b, node):
         if isinstance(a, Opaque) or isinstance(b, Opaque):
             return Opaque(f"sum with {a if isinstance(a, Opaque) else b}")
+        for side in (a, b):
+            src_none = isinstance(side, Src) and len(self.case_of(st, side.key)) == 1 \
+                and self.case_of(st, side.key)[0].concrete and self.case_of(st, side.key)[0].value is None
+            if side is None or src_none:
+                # str + None raises TypeError at run time; record it and continue with an empty contribution
+                st.events.append(("none-concat", U(node)[:60]))
+                other = b if side is a else a
+                return self.to_astr(st, other, node) if not isinstance(other, Src) or other is not side else AStr()
         # the pad idioms:  " " * (n - len(v)) + v   and   v + " " * (n - len(v))
         for pad, val, align in ((a, b, "r"), (b, a, "l")):
             if isinstance(pad, PadStr):
